@@ -13,9 +13,13 @@ THEOREMS = [
     "C10_tlv_bigsize_record_refuted", "C10_extra_unknown_dropped_refuted",
     "C10_layout_roundtrip", "C10_fixpoint", "C10_layout_canonical",
     "C10_size", "C10_message_roundtrip", "C10_wire_layouts_ok",
+    "C10_tlvmsg_roundtrip", "C10_tlvmsg_fixpoint", "C10_tlvmsg_loss_exactly_unknown",
+    "C10_gen_tlvmsgs_ok", "C10_gen_layouts_ok", "C10_gen_matches_handwritten",
+    "C10_failure_roundtrip", "C10_gen_failures_ok", "C10_tlvmsg_always_record_grows",
 ]
 MODULE = "LV.Wire.Props"
-TARGETS = ["theories/Wire/Props.vo", "theories/Wire/Exec.vo", "theories/Wire/Examples.vo"]
+TARGETS = ["theories/Wire/Props.vo", "theories/Wire/Exec.vo", "theories/Wire/Examples.vo",
+           "theories/Gen/GenWireSym.vo"]
 H_TLV = ["tlv/verif_tlv_test.go"]
 H_WIRE = ["lnwire/verif_wire_test.go"]
 WARM = [{"pkg": "tlv", "files": H_TLV, "moddir": "tlv"},
@@ -76,6 +80,10 @@ def t_case(r):
         return "CMsg %s %s %s %s %s" % (
             cbytes(r["b"]), cbool(r["ok"]), cN(r["t"]),
             clist([t_fval(f) for f in r.get("fields") or []]), cbytes(r.get("reenc") or ""))
+    if k == "fail":
+        return "CFail %s %s %s %s %s" % (
+            cbool(r["api"] == "DecodeFailure"), cbytes(r["b"]), cbool(r["ok"]), cN(r["t"]),
+            cbytes(r.get("reenc") or ""))
     if k == "write":
         return "CWrite %s %s %s %s" % (
             cN(r["t"]), clist([t_fval(f) for f in r["fields"]]), cbool(r["ok"]),
@@ -111,6 +119,47 @@ def load_gen_fields():
                                 "fields": fields}
     out[CUSTOM_FIRST] = {"kind": "plain", "mode": "-", "ext": "Data",
                          "fields": [("Data", "FRest", None)]}
+    return out
+
+
+def load_gen_failures():
+    """failure codes whose payload layout the translator generated (gen_failures)"""
+    try:
+        txt = open(os.path.join(THEORIES, "Gen", "GenWire.v")).read()
+    except OSError:
+        return set()
+    return {int(x) for x in re.findall(r"\((\d+), fail_\w+\)", txt)}
+
+
+def failure_model_rows(wrows, codes):
+    """onion failure rows whose ACTUAL code (read from the bytes: mutations may
+    change it) has a generated layout; rows too short to carry a code are kept
+    (both sides must reject)."""
+    out = []
+    for r in wrows:
+        if r["k"] != "fail" or r.get("panic") or r.get("enc_err"):
+            continue
+        b = bytes.fromhex(r["b"])
+        full = r["api"] == "DecodeFailure"
+        body = b
+        if full:
+            if len(b) < 2:
+                out.append(r)
+                continue
+            fl = int.from_bytes(b[:2], "big")
+            if len(b) < 2 + fl:
+                out.append(r)
+                continue
+            body = b[2:2 + fl]
+        if len(body) < 2:
+            out.append(r)
+            continue
+        code = int.from_bytes(body[:2], "big")
+        if code not in codes:
+            continue
+        if r["ok"] and "reenc" not in r:
+            continue
+        out.append(dict(r, t=code))
     return out
 
 
@@ -421,7 +470,12 @@ def run(ctx):
         "on_curve (btcec.ParsePubKey verdict) is a Section variable: layout theorems hold for "
         "any oracle; no hypothesis is placed on it",
         "python spec parser for BOLT-1 BigSize/TLV (props/c10.py) used as the independent "
-        "predicate on the implementation trace"])
+        "predicate on the implementation trace",
+        "translator /verif/translate/gen_wire.go (lnwire Encode/Decode -> Gen/GenWire.v layouts, "
+        "known records, Repack/Merge); its tables of element codecs and record decoders are tied "
+        "per run by the byte-exact comparison of verdict, fields and re-encoded bytes",
+        "python secp256k1 point test (props/c10.py secp_on_curve) supplies the ParsePubKey oracle "
+        "table of each TLV-message case"])
     env = {}
     rc1, tr1, out1 = run_harness(ctx.uid("tlv"), "tlv", H_TLV, "^TestVerifTlv$", env=env,
                                  moddir="tlv", timeout=1200)
@@ -489,6 +543,12 @@ def run(ctx):
     crow = [r for r in rows if len(r.get("b", "")) <= 2 * MAX_COQ_BYTES]
     crow += [r for r in mrows
              if len(r.get("b", "") or r.get("out", "")) <= 2 * MAX_COQ_BYTES]
+    frows = failure_model_rows(wrows, load_gen_failures())
+    if not ctx.thorough and len(frows) > 600:
+        # quick tier: an evenly spread sample (all rows are predicate-checked above)
+        step = len(frows) / 600.0
+        frows = [frows[int(i * step)] for i in range(600)]
+    crow += frows
     terms = [t_case(r) for r in crow]
     ok, bad, logs = coq_mismatches(ctx.uid(), IMPORTS, terms,
                                    shard=max(20, len(terms) // NCPU + 1))
@@ -502,7 +562,8 @@ def run(ctx):
                        "legend": "1/2 ReadVarInt, 3 WriteVarInt, 4 stream verdict/records, "
                                  "5 stream re-encode, 6 ReadMessage verdict/fields, "
                                  "7 message re-encode, 8 WriteMessage, 9 TLV-message "
-                                 "verdict/fields, 10 ExtraData field, 11 TLV-message re-encode"},
+                                 "verdict/fields, 10 ExtraData field, 11 TLV-message re-encode, "
+                                 "12 failure verdict/code, 13 failure re-encode"},
                       signature="C10 mismatch %s check%s" % (r["k"], which))
     if not pr["ok"] and not ctx.violations:
         ctx.violation("proof_broken", ", ".join(pr["broken"]) or "Wire build",
@@ -531,6 +592,8 @@ def run(ctx):
         "layout_modelled_types": sorted({r["t"] for r in mrows}),
         "layout_modelled_cases": len(mrows),
         "tlv_message_cases": sum(1 for r in mrows if r.get("tlvmsg")),
+        "failure_model_cases": len(frows),
+        "failure_codes_modelled": sorted(load_gen_failures()),
         "generated_layout_types": sorted(t for t in gen if t != CUSTOM_FIRST),
         "samples": [rows[0], {k: v for k, v in wrows[0].items() if k != "b"}],
         "correspondence_mismatches": len(bad),
